@@ -122,7 +122,9 @@ void h_run(void) {
   if (!waiters_first)
     for (int w = 0; w < nw; w++) fw[w] = fiber_create(STK, waiter, (void*)(intptr_t)w);
   /* joining the waiters first lets them be reclaimed while raisers are still at work */
-  if (early_join) sim_scenario("msignal-waiters-reclaimed-while-raising");
+  /* raises can still be in progress while a waiter is reclaimed whenever waiters are joined before the raisers,
+   * and always in the claim protocol, where the waiters themselves pass the signal on */
+  if (early_join || !strict_mode) sim_scenario("msignal-waiters-reclaimed-while-raising");
   if (early_join) {
     for (int w = 0; w < nw; w++) fiber_join(fw[w], NULL);
     for (int r = 0; r < nr; r++) fiber_join(fr[r], NULL);
